@@ -173,7 +173,7 @@ func StartAgent(conf pfcpiface.Conf, bessAddr string) (*Agent, error) {
 	}()
 	// wait for the PFCP socket passively (a probe datagram would create a connection object in
 	// the agent that outlives the start-up and receives digest reports first)
-	deadline := time.Now().Add(10 * time.Second)
+	deadline := time.Now().Add(30 * time.Second)
 	var lastErr error = fmt.Errorf("PFCP socket %s:%s not bound", conf.N4Addr, pfcpiface.PFCPPort)
 	for time.Now().Before(deadline) {
 		if udpBound(conf.N4Addr, 8805) {
